@@ -6,6 +6,7 @@
 use vstd::prelude::*;
 use vstd::std_specs::ops::*;
 use vstd::std_specs::cmp::*;
+use vstd::std_specs::convert::*;
 use vstd::std_specs::core::IndexSpecImpl;
 use core::ops::*;
 use core::cmp::Ordering;
@@ -58,7 +59,7 @@ impl PartialOrdSpecImpl for Sc { open spec fn obeys_partial_cmp_spec() -> bool {
 impl PartialOrd for Sc { #[verifier::external_body] fn partial_cmp(&self, o: &Sc) -> Option<Ordering> { unimplemented!() } }
 
 // ---- num_traits::{Zero, One} (external crate; declarations trusted)
-pub trait Zero: Sized { fn zero() -> Self; fn is_zero(&self) -> bool; }
+pub trait Zero: Sized { fn zero() -> Self; #[verifier::external_body] fn is_zero(&self) -> bool { unimplemented!() } }
 pub trait One: Sized { fn one() -> Self; }
 impl Zero for Sc {
     #[verifier::external_body] fn zero() -> (r: Sc) ensures r == s_zero() { unimplemented!() }
